@@ -174,7 +174,7 @@ def run_plan(plan: dict) -> RunResult:
     payload = payload_of(cfg)
     stopped = []
 
-    def violate(k, **d):
+    def violate(k, /, **d):
         if not stopped:
             res.violate(k, **d)
             stopped.append(1)
